@@ -226,3 +226,71 @@ by rewrite IH.
 Qed.
 
 End FlatRun.
+
+(* ================================================================== *)
+(* Frame-by-frame simulation (force_split_frames=True) returns the path of the flat simulation *)
+Section SplitFrames.
+Variable F : fieldType.
+Variables nb nf ne : nat.
+Notation O := (MCOps F).
+Variables (T : 'M[F]_nb) (P : 'M[F]_(nb, ne)) (X : 'M[F]_(nb, nf)) (J : 'M[F]_nf) (Ru : 'M[F]_(nf, ne)).
+
+(* a list of impacts is as good as the one the code computes for the columns vs *)
+Definition imps_ok (vs : seq 'cV[F]_ne) (imps : seq (option 'cV[F]_nb)) : Prop :=
+  size imps = size vs /\
+  forall t, (t < size vs)%N -> imp_val (nth None imps t) = P *m nth 0 vs t - X *m ant J Ru (drop t.+1 vs).
+
+Lemma imps_ok_impacts vs : imps_ok vs (@anticipated_impacts O nb nf ne P X J Ru vs).
+Proof.
+split; first by case: vs => [|v vs] //; have [] := @impacts_spec F nb nf ne P X J Ru (v :: vs) 0%N isT.
+by move=> t lt; have [] := @impacts_spec F nb nf ne P X J Ru vs t lt.
+Qed.
+
+Lemma imps_ok_tail v vs i imps : imps_ok (v :: vs) (i :: imps) -> imps_ok vs imps.
+Proof. by move=> [[sz] ok]; split=> // t lt; have := ok t.+1 lt. Qed.
+
+Lemma imps_ok_head v vs i imps : imps_ok (v :: vs) (i :: imps) -> imp_val i = P *m v - X *m ant J Ru vs.
+Proof. by move=> [_ /(_ 0%N isT)] /=; rewrite drop0. Qed.
+
+Lemma imps_ok_cons v vs imps : imps_ok (v :: vs) imps -> exists i r, imps = i :: r.
+Proof. by case: imps => [[]|i r _] //; exists i, r. Qed.
+
+Lemma split_go_flat (K : 'cV[F]_nb) (us : seq 'cV[F]_ne) : forall first xi plan vs imps,
+  size us = size vs -> imps_ok vs imps ->
+  (~~ first -> exists2 imps', imps_ok vs imps' & plan = @flat_run O nb ne T K P xi (nseq (size us) 0) imps') ->
+  @split_go O nb nf ne T K P X J Ru first xi plan us vs = @flat_run O nb ne T K P xi us imps.
+Proof.
+elim: us => [|u us IH] first xi plan [|v vs] imps //= [sz] ok pl.
+have [i [imps_t Ei]] := imps_ok_cons ok; subst imps.
+have hd_i := imps_ok_head ok; have ok_t := imps_ok_tail ok.
+case start: (first || ~~ (u == 0)).
+- (* a frame starts here *)
+  have ok0 := imps_ok_impacts (v :: vs).
+  have [i0 [r0 E0]] := imps_ok_cons ok0; rewrite E0 in ok0 *.
+  rewrite /= -/(flat_step O T K P xi u i0).
+  have -> : @flat_step O nb ne T K P xi u i0 = @flat_step O nb ne T K P xi u i.
+    by rewrite !flat_stepE hd_i (imps_ok_head ok0).
+  congr (_ :: _); apply: IH => //.
+  move=> _; exists r0; first exact: (imps_ok_tail ok0).
+  by rewrite map_listE; congr (flat_run _ _ _ _ _ _); elim: (us) => //= a l ->.
+- (* inside a frame: the unanticipated shock is zero and the plan of the frame is followed *)
+  move: start => /norP [nf_ /negPn /eqP u0].
+  have [imps' ok' ->] := pl nf_.
+  have [i' [r' E']] := imps_ok_cons ok'; rewrite E' in ok' *.
+  rewrite /= -/(flat_step O T K P xi 0 i').
+  have -> : @flat_step O nb ne T K P xi 0 i' = @flat_step O nb ne T K P xi u i.
+    by rewrite !flat_stepE hd_i (imps_ok_head ok') u0.
+  congr (_ :: _); apply: IH => //.
+  by move=> _; exists r'; first exact: (imps_ok_tail ok').
+Qed.
+
+Theorem split_frames_equal_flat (K : 'cV[F]_nb) deviation (true_init : nat -> bool) (init : 'cV[F]_nb) (us vs : seq 'cV[F]_ne) :
+  size us = size vs ->
+  @simulate_split O nb nf ne deviation true_init T P K X J Ru init us vs
+  = @simulate_flat O nb nf ne deviation true_init T P K X J Ru init us vs.
+Proof.
+move=> sz; rewrite /simulate_split /simulate_flat.
+by case: deviation; apply: split_go_flat => //; exact: imps_ok_impacts.
+Qed.
+
+End SplitFrames.
